@@ -56,6 +56,7 @@ def configs(tier):
             out.append(("columns", "rec", delim, n))
             out.append(("columns", "sf", delim, n))
         out.append(("styles", delim, 2))
+        out.append(("styles", delim, -2))
     # the C++ cursor machines of the subset readers, interpreted from records.cpp
     for sizes in (((2, 1, 3), (4, 4)) if q else ((2, 1, 3), (4, 4), (1, 2, 1, 2))):
         for nrows in ((3, 4) if q else (3, 4, 5)):
@@ -64,12 +65,12 @@ def configs(tier):
     return out
 
 
-def _setup(cx, delim, n):
+def _setup(cx, delim, n, descr=None):
     vfs = recmodel.VFS()
     mod = recmodel.make_module(vfs)
     ld = loader.Loader(stubs={"esutil.recfile.records": mod}, builtin_overrides={"open": recmodel.make_open(vfs)})
     ru = ld.get("esutil.recfile.Util")
-    dt = rnp.dtype(DESCR)
+    dt = rnp.dtype(descr or DESCR)
     tab = symrec.SRec.zeros((n,), dt)
     cells = {}
     for name in dt.names:
@@ -240,6 +241,16 @@ def harness(cx, cfg):
 def h_styles(cx, cfg):
     """the convenience options split / reduce and the module-level reader"""
     _, delim, n = cfg
+    if n < 0:
+        # a table with a single column: reduce=True gives the plain column however the column was (not) named
+        n = -n
+        ld, ru, vfs, tab, cells, dt = _setup(cx, delim, n, descr=[("x", "<i4")])
+        sfm = ld.get("esutil.sfile")
+        kw = [{}, {"columns": ["x"]}, {"columns": "x"}, {"rows": [0]}][cx.choice("how", 4)]
+        res = sfm.read(FNAME, reduce=True, **kw)
+        rows = [0] if "rows" in kw else list(range(n))
+        _check_table(cx, "sfile.read(reduce=True) of a one-column table", res, cells, rows, ["x"], plain=True)
+        return
     ld, ru, vfs, tab, cells, dt = _setup(cx, delim, n)
     sfm = ld.get("esutil.sfile")
     which = cx.choice("which", 5)
@@ -320,6 +331,20 @@ def replay(cand):
                             for c in cols:
                                 if not np.array_equal(got[c], t[rows][c]):
                                     return {"reproduced": True, "key": "cxx:columns", "what": "read(rows=%r, columns=%r): column %r = %r, expected %r" % (rows, cols, c, got[c].tolist(), t[rows][c].tolist())}
+            return no
+        if what == "styles" and cfg[2] < 0:
+            _, delim, n = cfg
+            n = -n
+            t1 = np.zeros(n + 1, dtype=[("x", "<i4")])
+            t1["x"] = np.arange(n + 1) * 3 + 1
+            fn1 = os.path.join(d, "one.rec")
+            sfile.write(t1, fn1, delim=delim)
+            for kw in ({}, {"columns": ["x"]}, {"columns": "x"}, {"rows": [0, 1]}):
+                res = sfile.read(fn1, reduce=True, **kw)
+                w = t1["x"][kw["rows"]] if "rows" in kw else t1["x"]
+                if not (isinstance(res, np.ndarray) and res.dtype.names is None and np.array_equal(res, w)):
+                    return {"reproduced": True, "key": "reduce:one-column", "what": "sfile.read(one-column %s file, reduce=True%s) -> %r, expected the plain column %r"
+                            % ("text" if delim else "binary", "".join(", %s=%r" % kv for kv in kw.items()), res, w.tolist())}
             return no
         if what == "styles":
             _, delim, n = cfg
